@@ -31,7 +31,7 @@ CLAIMED = {
              'membership and bound on the implementation output.',
         note=NOTE),
     'C20': dict(
-        technique='Coq proof over a state-machine model of the logger and wrap_verbose (induction over histories) + exhaustive differential correspondence of histories in forked processes + TRANSLATION TIE (Prop_Tie_Logger.v): the bodies of wrap_verbose.inner_verbose, set_level, get_level, disable, enable, is_active (logger state threaded explicitly) are regenerated from the source on every run by a fail-closed ast translator and machine-checked refinement theorems show the hand model computes exactly what the translated program computes for every oracle behaviour',
+        technique='Coq proof over a state-machine model of the logger and wrap_verbose (induction over histories) + exhaustive differential correspondence of histories in forked processes + TRANSLATION TIE (Prop_Tie_Logger.v): the bodies of wrap_verbose.inner_verbose, set_level, get_level, disable, enable, is_active, and set_up in Prop_Tie_Misc.v (logger state threaded explicitly) are regenerated from the source on every run by a fail-closed ast translator and machine-checked refinement theorems show the hand model computes exactly what the translated program computes for every oracle behaviour',
         text='Theorems (Prop_C20.v) prove that a decorated call restores the entire logger state whether it returns or raises, in every '
              'state including never-set-up, that the caller sees the function\'s own outcome independent of logger state and override, '
              'and by induction over histories that calls never influence the logger state. Correspondence: every history up to depth '
